@@ -15,7 +15,7 @@ def run(ctx):
     if not ctx.translate():
         return
     ok = ctx.prove(MODULES)
-    n = 400 if ctx.thorough() else 30
+    n = 1200 if ctx.thorough() else 30
     res = fw.corr(ctx, "gauge", n)
     fw.report_corr(ctx, "gauge", res, features)
     if res is not None:
